@@ -7,10 +7,10 @@ CONSTANT Opt <- MCOpt
 CONSTANT Mdl <- MCMdl
 CONSTANT InPlace <- MCInPlace
 CONSTANT Needs <- MCNeeds
-CONSTANT Establishes <- MCEst
+CONSTANT Establishes <- MCEstNoConvert
 CONSTANT MaxLen = 3
 CONSTANT Policy = "clear_at_entry"
 CONSTANT SeedsRng = TRUE
-CONSTANT ReaderCopies = FALSE
-INVARIANT CallerStateUntouched
+CONSTANT ReaderCopies = TRUE
+INVARIANT HistoryIndependent
 CHECK_DEADLOCK FALSE
